@@ -76,7 +76,7 @@ class PlanJoinTSPredictorQuery:
             #   if table.part[0] not in integration - take integration name from create table command
             if (
                 integration is not None
-                and query.from_table.parts[0] not in self.planner.databases
+                and query.from_table.parts[0].lower() not in self.planner.databases
             ):
                 # add integration name to table
                 query.from_table.parts.insert(0, integration)
